@@ -134,7 +134,7 @@ def interpolation(h):
     h.ensures("no_nan", est.nan is None or z3.Implies(rows, z3.Not(est.nan)))
     m0 = z3.substitute(cols["results_normalized_margin"].t, (ver.u, z3.IntVal(0)))
     pv0 = z3.substitute(real(pv.t), (ver.u, z3.IntVal(0)))
-    h.ensures("before_the_first_observation_equals_first_margin", z3.Implies(z3.And(rows, p > 0, p < pv0), est.t == m0))
+    h.ensures("before_the_first_observation_equals_first_margin", z3.Implies(z3.And(rows, p > 0, p < pv0), est.t == m0), replay=lambda ev: {"target": "verif_replays:version_history_replay", "args": [[150, 210, 610], [50, 290, 390]], "kwargs": {"pev": [20.0, 50.0, 100.0]}, "check": "result['exc'] is None and result['ok']"})
     h.ensures("zero_percent_is_zero_not_nan", z3.Implies(z3.And(rows, p == 0), est.t == 0))
     mlast = z3.substitute(cols["results_normalized_margin"].t, (ver.u, n - 1))
     h.ensures("correction_is_final_margin_minus_imputed", z3.Implies(rows, corr.t == mlast - est.t))
